@@ -3667,6 +3667,37 @@ Print Assumptions loopir_minvar_tie.
 THEOREMS['minvar'] = dict(proof=MINVAR_PROOF, theorems=MINVAR_THEOREMS, block=MINVAR_BLOCK)
 
 
+# ---------------------------------------------------------------- speriodogram (1-D path): translation + theorem (T8)
+SPER_PROOF = 'Proofs/LoopIRSperiodogram.v'
+SPER_THEOREMS = ['loopir_speriodogram_model', 'loopir_speriodogram_tie']
+SPER_BLOCK = """
+(* The program of speriodogram regenerated on this run - the 1-D path: NFFT resolution, numpy.mean, x * w - m, numpy.fft.rfft / fft (the DFT specification
+   of Theory/Dft.v over the hidden twiddle parameter), abs()**2 / r, res *= 2*pi/df - is, term for term, the one Proofs/LoopIRSperiodogram.v is about. *)
+Require Import Spectrum.Theory.Ops Spectrum.Theory.Vec Spectrum.Theory.Dft Spectrum.Model.Periodogram Spectrum.Model.LoopIRTie Spectrum.Model.LoopIRVec
+               Spectrum.Proofs.LoopIRSperiodogram.
+Lemma prog_speriodogram_is_ref : prog_speriodogram = prog_speriodogram_ref.
+Proof. reflexivity. Qed.
+(* for EVERY twiddle family, ANY value of the numpy.pi slot, ANY window samples of the length of x, x of any length with either dtype tag (rfft / fft path),
+   NFFT omitted or any natural number (padding, cropping, 0), detrend / scale_by_freq omitted or any non-integer Python value, sampling omitted or given:
+   the run returns / raises exactly what Model.Periodogram.speriodogram says (speriodogram_spec of Model/LoopIRVec.v) *)
+Theorem loopir_speriodogram_model :
+  forall (F : Type) (OF : Ops F) (L : Laws OF) (feq : F -> F -> bool) (stop : Z -> F -> F -> bool) (tw : nat -> Z -> F) (pi : F)
+         (isreal : bool) (x w : list F) (NFFT : option nat) (dt sbf : option pyval) (fs : option F),
+  length w = length x -> oflag_ok dt -> oflag_ok sbf ->
+  run feq stop prog_speriodogram (speriodogram_args tw pi isreal x w NFFT dt sbf fs) = speriodogram_spec tw pi isreal x w NFFT dt sbf fs.
+Proof. intros. rewrite prog_speriodogram_is_ref. apply speriodogram_ir_run; assumption. Qed.
+Theorem loopir_speriodogram_tie :
+  forall (F : Type) (OF : Ops F) (L : Laws OF) (feq : F -> F -> bool), (forall a, feq a a = true) ->
+  forall (tw : nat -> Z -> F) (pi : F) (isreal : bool) (x w : list F) (NFFT : option nat) (dt sbf : option pyval) (fs : option F),
+  length w = length x -> oflag_ok dt -> oflag_ok sbf ->
+  tie_speriodogram feq tw pi prog_speriodogram isreal x w NFFT dt sbf fs = true.
+Proof. intros. rewrite prog_speriodogram_is_ref. apply speriodogram_ir_tie; assumption. Qed.
+Print Assumptions loopir_speriodogram_model.
+Print Assumptions loopir_speriodogram_tie.
+"""
+THEOREMS['speriodogram'] = dict(proof=SPER_PROOF, theorems=SPER_THEOREMS, block=SPER_BLOCK)
+
+
 def reference_text_in(proof, name):
     """the program text of <name> that <proof> was proved about (between its BEGIN/END GENERATED <name> markers)"""
     t = open(os.path.join(vlib.COQ, proof)).read()
